@@ -64,6 +64,32 @@ impl Ctx {
         self.rep.violation(&sig, what, &file, &detail);
     }
 
+    /// Violation that is a relation between two inputs (C09, C10): replay file holds both keys.
+    fn pair_violation(&mut self, fmt: Fmt, a: &Case, b: &Case, what: &str, text: &str, bits_a: u64, bits_b: u64) {
+        let mut h = Hasher64::new();
+        h.u64(a.hash()).u64(b.hash());
+        let hh = h.finish();
+        let sig = format!("{}:{}:{:016x}", what, fmt.name, hh);
+        let file = format!("{}/{}-{}-{}-{:016x}.json", self.replay_dir, self.prop, config_name(), profile_name(), hh);
+        let body = format!(
+            "{{\"property\":{},\"engine\":\"eng_parse\",\"config\":{},\"profile\":{},\"fmt\":{},\"what\":{},\"text\":{},\"observed\":[{},{}],\"pair_keys\":[{},{}]}}\n",
+            json_str(&self.prop),
+            json_str(config_name()),
+            json_str(profile_name()),
+            json_str(fmt.name),
+            json_str(what),
+            json_str(text),
+            json_str(&bits_hex(fmt, bits_a)),
+            json_str(&bits_hex(fmt, bits_b)),
+            json_str(&a.key()),
+            json_str(&b.key())
+        );
+        let _ = std::fs::create_dir_all(&self.replay_dir);
+        let _ = std::fs::write(&file, body);
+        let detail = format!("\"fmt\":{},\"pair\":{}", json_str(fmt.name), json_str(text));
+        self.rep.violation(&sig, what, &file, &detail);
+    }
+
     /// Run one case through the crate, with hooks and panic monitor.
     fn run(&mut self, fmt: Fmt, c: &Case) -> (Result<u64, String>, sink::Path) {
         if self.announce {
@@ -656,6 +682,375 @@ fn mode_dump(ctx: &mut Ctx, args: &Args, rng: &mut Rng) {
     ctx.rep.extra.insert("chunk_size".into(), format!("{}", chunk));
 }
 
+/// C09: clusters of nearby inputs sorted by exact decimal value must parse to a non-decreasing sequence.
+fn mode_monotonic(ctx: &mut Ctx, _args: &Args, rng: &mut Rng) {
+    let mut i = 0u64;
+    loop {
+        if ctx.rep.out_of_time() {
+            break;
+        }
+        i += 1;
+        let fmt = if i % 2 == 0 { F64 } else { F32 };
+        let kind = rng.below(10);
+        let mut cluster: Vec<Case> = Vec::new();
+        let mut presorted = false;
+        match kind {
+            0 | 1 | 2 => {
+                // variants around one boundary
+                let bits = gen::pick_float(rng, fmt);
+                let mid = rng.chance(4, 5) || bits == 0;
+                for _ in 0..rng.range(6, 14) {
+                    let which = rng.below(7);
+                    let (c, _) = gen::g1_for(rng, fmt, bits, mid, which);
+                    cluster.push(c);
+                }
+                ctx.rep.count("cluster.boundary");
+            }
+            3 => {
+                // three adjacent floats and the midpoints between them
+                let bits = gen::pick_float(rng, fmt).max(1).min(fmt.max_finite_bits() - 2);
+                for b in [bits - 1, bits, bits + 1] {
+                    for mid in [false, true] {
+                        for _ in 0..3 {
+                            let which = rng.below(7);
+                            let (c, _) = gen::g1_for(rng, fmt, b, mid, which);
+                            cluster.push(c);
+                        }
+                    }
+                }
+                ctx.rep.count("cluster.adjacent_floats");
+            }
+            4 | 5 => {
+                // consecutive significands at a fixed exponent, around a seam
+                let c0 = gen::g_seam(rng, fmt);
+                let d = c0.dec();
+                if d.is_zero() {
+                    continue;
+                }
+                let (sig, e10) = d.digits_exp();
+                if sig.len() > 19 {
+                    continue;
+                }
+                let w0: u64 = std::str::from_utf8(sig).unwrap().parse().unwrap();
+                let len = rng.range(8, 48) as u64;
+                for k in 0..len {
+                    let w = match w0.checked_add(k) {
+                        Some(w) => w,
+                        None => break,
+                    };
+                    let mut s = w.to_string().into_bytes();
+                    let mut e = e10;
+                    if rng.chance(1, 6) {
+                        // extra digits after w: w.ddd still between w and w+1
+                        let extra = rng.range(1, 25) as usize;
+                        for _ in 0..extra {
+                            s.push(rng.digit());
+                        }
+                        e -= extra as i64;
+                    }
+                    if let Some(c) = gen::place_random(rng, &s, e, "WRUN") {
+                        cluster.push(c);
+                    }
+                }
+                ctx.rep.count("cluster.w_run");
+            }
+            6 => {
+                // same digits, consecutive exponents (x10 each step) across every early-out
+                let n = rng.range(1, 22) as usize;
+                let mut sig = rng.digits(n);
+                sig[0] = rng.nz_digit();
+                let (lo, hi) = if fmt.mant_bits == 52 { (-350i64, 315i64) } else { (-70, 45) };
+                let q0 = rng.range(lo, hi - 30);
+                for q in q0..q0 + rng.range(10, 60) {
+                    if let Some(c) = gen::place_random(rng, &sig, q - n as i64, "QRUN") {
+                        cluster.push(c);
+                    }
+                }
+                presorted = true;
+                ctx.rep.count("cluster.q_run");
+            }
+            7 => {
+                // hard cases and their neighbours
+                let c0 = match ctx.corpus_case(rng, fmt) {
+                    Some(c) => c,
+                    None => continue,
+                };
+                let d = c0.dec();
+                let (sig, e10) = d.digits_exp();
+                if sig.len() > 19 || d.is_zero() {
+                    continue;
+                }
+                let w0: u64 = std::str::from_utf8(sig).unwrap().parse().unwrap();
+                for dw in -3i64..=3 {
+                    let w = (w0 as i128 + dw as i128).clamp(1, u64::MAX as i128) as u64;
+                    let s = w.to_string().into_bytes();
+                    if let Some(c) = gen::place_random(rng, &s, e10, "CFRUN") {
+                        cluster.push(c);
+                    }
+                    let mut s2 = s.clone();
+                    let k = rng.range(1, 40) as usize;
+                    for _ in 0..k {
+                        s2.push(if rng.chance(1, 2) { b'0' } else { b'9' });
+                    }
+                    s2.push(rng.nz_digit());
+                    if let Some(c) = gen::place_random(rng, &s2, e10 - k as i64 - 1, "CFRUN+") {
+                        cluster.push(c);
+                    }
+                }
+                ctx.rep.count("cluster.hard_cases");
+            }
+            8 => {
+                // depth perturbations: P4999..9 < P5 < P5000..01 with the change thousands of digits out
+                let bits = gen::pick_float(rng, fmt);
+                let b = gen::boundary(fmt, bits, true);
+                let (sg, e10) = b.d.digits_exp();
+                let depth = *rng.pick(&[1usize, 30, 700, 800, 5000, 20000]);
+                let mut below = sg.to_vec();
+                let n = below.len();
+                below[n - 1] -= 1;
+                below.resize(n + depth, b'9');
+                let lz = below.iter().take_while(|&&c| c == b'0').count();
+                if lz < below.len() {
+                    if let Some(c) = gen::place_random(rng, &below[lz..], e10 - depth as i64, "DEPTH_BELOW") {
+                        cluster.push(c);
+                    }
+                }
+                if let Some(c) = gen::place_random(rng, sg, e10, "DEPTH_TIE") {
+                    cluster.push(c);
+                }
+                let mut above = sg.to_vec();
+                above.resize(n + depth, b'0');
+                above.push(b'1');
+                if let Some(c) = gen::place_random(rng, &above, e10 - depth as i64 - 1, "DEPTH_ABOVE") {
+                    cluster.push(c);
+                }
+                presorted = true;
+                ctx.rep.count("cluster.depth");
+            }
+            _ => {
+                // range ends
+                for _ in 0..10 {
+                    cluster.push(gen::g3(rng, fmt));
+                }
+                ctx.rep.count("cluster.range_ends");
+            }
+        }
+        if cluster.len() < 2 {
+            continue;
+        }
+        // exact order
+        let mut keyed: Vec<(oracle::Dec, Case)> = cluster.into_iter().map(|c| (c.dec(), c)).collect();
+        if !presorted {
+            keyed.sort_by(|a, b| a.0.cmp(&b.0));
+        } else {
+            // the construction promises the order; verify it with the exact comparison
+            if keyed.windows(2).any(|w| w[0].0 > w[1].0) {
+                ctx.rep.inconclusive("GENERATOR-ERROR: presorted chain is not sorted");
+                continue;
+            }
+        }
+        let mut prev: Option<(u64, sink::Path, usize)> = None;
+        for idx in 0..keyed.len() {
+            let (r, p) = ctx.run(fmt, &keyed[idx].1);
+            let bits = match r {
+                Ok(b) => b,
+                Err(msg) => {
+                    let loc = util::last_panic_loc();
+                    let c = keyed[idx].1.clone();
+                    ctx.violation(fmt, &c, "panic", &format!("panic at {}: {}", loc, msg), "a value", &p);
+                    prev = None;
+                    continue;
+                }
+            };
+            let c = keyed[idx].1.clone();
+            ctx.classify(fmt, &c, bits, &p);
+            if fmt.is_nan(bits) || bits & fmt.sign_bit() != 0 {
+                ctx.violation(fmt, &c, "nan-or-negative", &bits_hex(fmt, bits), "ordered value", &p);
+                prev = None;
+                continue;
+            }
+            if let Some((pb, pp, pidx)) = prev {
+                ctx.rep.count("pairs.compared");
+                let equal_value = keyed[pidx].0 == keyed[idx].0;
+                if pp.tier() != p.tier() {
+                    ctx.rep.count("pairs.across_tiers");
+                    ctx.rep.count(&format!("pairs.tiers.{}->{}", pp.tier(), p.tier()));
+                }
+                if bits > pb {
+                    ctx.rep.count("pairs.strict_increase");
+                }
+                if equal_value {
+                    ctx.rep.count("pairs.equal_value");
+                }
+                ctx.rep.distinct(keyed[pidx].1.hash() ^ c.hash().rotate_left(1) ^ fmt.mant_bits as u64);
+                if bits < pb || (equal_value && bits != pb) {
+                    let a = keyed[pidx].1.clone();
+                    let what = if equal_value { "equal-values-differ" } else { "order-inverted" };
+                    // replay file describes the pair; the case key holds the larger input, "other" the smaller
+                    let sig_extra = format!("smaller input {} -> {} ({}), larger input {} -> {} ({})", a.show(), bits_hex(fmt, pb), pp.tier(), c.show(), bits_hex(fmt, bits), p.tier());
+                    ctx.pair_violation(fmt, &a, &c, what, &sig_extra, pb, bits);
+                }
+            }
+            ctx.rep.sample(|| format!("{{\"fmt\":{},\"case\":{},\"bits\":{},\"tier\":{}}}", json_str(fmt.name), c.json(), json_str(&bits_hex(fmt, bits)), json_str(p.tier())));
+            prev = Some((bits, p, idx));
+        }
+    }
+    for k in ["pairs.compared", "pairs.across_tiers", "pairs.strict_increase", "cluster.boundary", "cluster.w_run", "cluster.q_run", "cluster.depth", "cluster.adjacent_floats"] {
+        ctx.rep.require(k);
+    }
+}
+
+/// All spellings of sig * 10^e10 used by C10.
+fn spellings(rng: &mut Rng, sig: &[u8], e10: i64, out: &mut Vec<Case>) {
+    let n = sig.len();
+    let tz = |rng: &mut Rng| -> usize {
+        match rng.below(6) {
+            0 => 0,
+            1 => rng.range(1, 40) as usize,
+            2 => 40,
+            _ => 0,
+        }
+    };
+    let push = |out: &mut Vec<Case>, int: Vec<u8>, frac: Vec<u8>, e: i64, tag: &'static str| {
+        if e >= i32::MIN as i64 && e <= i32::MAX as i64 {
+            out.push(Case { int, frac, exp: e as i32, tag });
+        }
+    };
+    // every split position (all if short, else a sample incl. the 19/20 seams)
+    let mut splits: Vec<usize> = if n <= 48 { (0..=n).collect() } else { vec![0, 1, 18, 19, 20, 21, n / 2, n - 20, n - 19, n - 1, n] };
+    if n > 48 {
+        for _ in 0..6 {
+            splits.push(rng.range(0, n as i64) as usize);
+        }
+    }
+    for s in splits {
+        if s > n {
+            continue;
+        }
+        let t = tz(rng);
+        let mut frac = sig[s..].to_vec();
+        frac.resize(frac.len() + t, b'0');
+        push(out, sig[..s].to_vec(), frac, e10 + (n - s) as i64, "SPLIT");
+    }
+    // digits moved into the exponent: integer gets j extra zeros
+    for j in [1usize, 2, 5, 19, 20, 40, 300, 800] {
+        if j > 40 && !rng.chance(1, 4) {
+            continue;
+        }
+        let mut int = sig.to_vec();
+        int.resize(n + j, b'0');
+        let t = tz(rng);
+        push(out, int, vec![b'0'; t], e10 - j as i64, "INT_ZEROS");
+    }
+    // empty integer, z leading zeros in the fraction
+    for z in [0usize, 1, 2, 18, 19, 20, 40, 400, 5000] {
+        if z > 40 && !rng.chance(1, 4) {
+            continue;
+        }
+        let mut frac = vec![b'0'; z];
+        frac.extend_from_slice(sig);
+        let t = tz(rng);
+        frac.resize(frac.len() + t, b'0');
+        push(out, vec![], frac, e10 + (z + n) as i64, "FRAC_ZEROS");
+    }
+    // appended fraction zeros 0..40 on one fixed split
+    let s = rng.range(0, n as i64) as usize;
+    for t in [0usize, 1, 2, 3, 10, 17, 18, 19, 20, 21, 39, 40] {
+        let mut frac = sig[s..].to_vec();
+        frac.resize(frac.len() + t, b'0');
+        push(out, sig[..s].to_vec(), frac, e10 + (n - s) as i64, "TRAILING_ZEROS");
+    }
+}
+
+/// C10: equal values written differently give identical bits.
+fn mode_resplit(ctx: &mut Ctx, _args: &Args, rng: &mut Rng) {
+    let mut i = 0u64;
+    let mut routes: HashSet<(u64, i64, bool)> = HashSet::new();
+    loop {
+        if ctx.rep.out_of_time() {
+            break;
+        }
+        i += 1;
+        let fmt = if i % 2 == 0 { F64 } else { F32 };
+        let base = match rng.below(10) {
+            0 | 1 | 2 | 3 => gen::g1(rng, fmt),
+            4 => gen::g5(rng, fmt),
+            5 => gen::g_seam(rng, fmt),
+            6 => match ctx.corpus_case(rng, fmt) {
+                Some(c) => c,
+                None => continue,
+            },
+            7 => gen::g3(rng, fmt),
+            _ => gen::g9(rng, fmt),
+        };
+        let d = base.dec();
+        if d.is_zero() || d.d.len() > 3000 {
+            continue;
+        }
+        let (sig, e10) = d.digits_exp();
+        let mut sp: Vec<Case> = Vec::new();
+        spellings(rng, sig, e10, &mut sp);
+        if sp.len() < 2 {
+            continue;
+        }
+        ctx.rep.count("bases");
+        ctx.rep.count(&format!("base.{}", base.tag));
+        routes.clear();
+        let mut first: Option<(u64, sink::Path, Case)> = None;
+        let mut tiers: HashSet<&'static str> = HashSet::new();
+        for c in sp {
+            debug_assert!(c.dec() == d);
+            let (r, p) = ctx.run(fmt, &c);
+            let bits = match r {
+                Ok(b) => b,
+                Err(msg) => {
+                    let loc = util::last_panic_loc();
+                    ctx.violation(fmt, &c, "panic", &format!("panic at {}: {}", loc, msg), "a value", &p);
+                    continue;
+                }
+            };
+            ctx.classify(fmt, &c, bits, &p);
+            ctx.rep.count(&format!("spelling.{}", c.tag));
+            routes.insert((p.mantissa, p.exponent, p.many_digits));
+            tiers.insert(p.tier());
+            ctx.rep.distinct(c.hash() ^ fmt.mant_bits as u64);
+            ctx.rep.sample(|| format!("{{\"fmt\":{},\"case\":{},\"bits\":{},\"tier\":{}}}", json_str(fmt.name), c.json(), json_str(&bits_hex(fmt, bits)), json_str(p.tier())));
+            match &first {
+                None => {
+                    // anchor the class to the exact value on a sample
+                    if i % 8 == 0 {
+                        ctx.rep.count("anchor.oracle_checked");
+                        if !oracle::check(&d, fmt, bits) {
+                            let want = oracle::round(&d, fmt);
+                            if want != bits {
+                                ctx.violation(fmt, &c, "wrong-value", &bits_hex(fmt, bits), &bits_hex(fmt, want), &p);
+                            }
+                        }
+                    }
+                    first = Some((bits, p, c));
+                }
+                Some((fb, fp, fc)) => {
+                    if bits != *fb {
+                        let extra = format!("{} -> {} ({}), {} -> {} ({})", fc.show(), bits_hex(fmt, *fb), fp.tier(), c.show(), bits_hex(fmt, bits), p.tier());
+                        let (fb, fc) = (*fb, fc.clone());
+                        ctx.pair_violation(fmt, &fc, &c, "equal-values-differ", &extra, fb, bits);
+                    }
+                }
+            }
+        }
+        ctx.rep.add("routes.distinct_number_triples", routes.len() as u64);
+        if routes.len() > 1 {
+            ctx.rep.count("bases.with_several_internal_routes");
+        }
+        if tiers.len() > 1 {
+            ctx.rep.count("bases.with_tier_changes");
+        }
+    }
+    for k in ["bases", "spelling.SPLIT", "spelling.INT_ZEROS", "spelling.FRAC_ZEROS", "spelling.TRAILING_ZEROS", "bases.with_several_internal_routes", "bases.with_tier_changes", "path.slow_neg", "path.slow_pos", "path.fast"] {
+        ctx.rep.require(k);
+    }
+}
+
 fn main() {
     let args = Args::parse();
     util::quiet_panics();
@@ -682,6 +1077,33 @@ fn main() {
     ph.bytes(prop.as_bytes());
     let mut rng = Rng::new(seed).fork(ph.finish()).fork(shard.0 + 1);
 
+    if let Some(f) = args.get("pair-file") {
+        let txt = std::fs::read_to_string(f).expect("pair file");
+        let mut it = txt.lines();
+        let a = Case::from_key(it.next().expect("first key").trim());
+        let b = Case::from_key(it.next().expect("second key").trim());
+        let fmt = mlverif::fmt_of(&args.str("fmt", "f64"));
+        let (da, db) = (a.dec(), b.dec());
+        let (ra, _) = ctx.run(fmt, &a);
+        let (rb, _) = ctx.run(fmt, &b);
+        let ok = match (ra, rb) {
+            (Ok(x), Ok(y)) => {
+                println!("REPLAY {} {} -> {}; {} -> {}", fmt.name, a.show(), bits_hex(fmt, x), b.show(), bits_hex(fmt, y));
+                match da.cmp(&db) {
+                    std::cmp::Ordering::Less => x <= y,
+                    std::cmp::Ordering::Equal => x == y,
+                    std::cmp::Ordering::Greater => x >= y,
+                }
+            }
+            _ => false,
+        };
+        if !ok {
+            ctx.rep.violation("replay", "pair relation violated", f, "");
+        }
+        println!("REPLAY pair -> {}", if ok { "held" } else { "VIOLATED" });
+        ctx.rep.finish();
+        return;
+    }
     if let Some(f) = args.get("case-file") {
         // replay a single case
         let key = std::fs::read_to_string(f).expect("case file");
@@ -703,6 +1125,8 @@ fn main() {
         "C01" | "C02" | "C06" | "C07" => mode_oracle(&mut ctx, &args, &mut rng),
         "C03" => mode_roundtrip(&mut ctx, &args, &mut rng, shard),
         "C04" => mode_nopanic(&mut ctx, &args, &mut rng, shard),
+        "C09" => mode_monotonic(&mut ctx, &args, &mut rng),
+        "C10" => mode_resplit(&mut ctx, &args, &mut rng),
         "C05" => {
             // the stream must be identical in every configuration: fork by shard only
             mode_dump(&mut ctx, &args, &mut rng)
